@@ -253,7 +253,9 @@ func expectFor(g *model.GenPkg, f *model.Field) (accExpect, error) {
 			e.set = cross(O+" = &"+W+"{"+F+": ", unwrapV(k, "$2", T), "}")
 			fresh := "%t1 := &" + MT + "{}; " + O + " = &" + W + "{" + F + ": %t1}; return protoreflect.ValueOfMessage(%t1.ProtoReflect())"
 			fresh2 := "%t2 := &" + MT + "{}; " + O + " = &" + W + "{" + F + ": %t2}; return protoreflect.ValueOfMessage(%t2.ProtoReflect())"
-			e.mutable = []string{"if (" + O + " == nil) {" + fresh + "}; typeswitch %w := " + O + ".(type) {case *" + W + ": return protoreflect.ValueOfMessage(%w." + F + ".ProtoReflect()) | default: " + fresh2 + "}"}
+			e.mutable = []string{"if (" + O + " == nil) {" + fresh + "}; typeswitch %w := " + O + ".(type) {case *" + W + ": return protoreflect.ValueOfMessage(%w." + F + ".ProtoReflect()) | default: " + fresh2 + "}",
+				// the same decision with one assertion: held member -> its message, anything else (unset or another member) -> a new one
+				"if %v, %ok := " + O + ".(*" + W + "); %ok {return protoreflect.ValueOfMessage(%v." + F + ".ProtoReflect())}; " + fresh}
 			e.newField = []string{"return protoreflect.ValueOfMessage(&" + MT + "{}.ProtoReflect())", "return protoreflect.ValueOfMessage(new(" + MT + ").ProtoReflect())"}
 		} else {
 			for _, z := range zeroLit(k, T) {
@@ -783,7 +785,7 @@ func runViews(c *core.Ctx, g *model.GenPkg) {
 			if f.Desc.IsList() {
 				k := f.Desc.Kind()
 				E := f.Var.Type().(*types.Slice).Elem()
-				exp["Len"] = []string{"if (x.list == nil) {return 0}; return len(" + B + ")"}
+				exp["Len"] = []string{"if (x.list == nil) {return 0}; return len(" + B + ")", "if %v := x.list; (%v != nil) {return len(*%v)}; return 0", "%t1 := x.list; if (%t1 == nil) {return 0}; return len(*%t1)"}
 				exp["IsValid"] = []string{"return (x.list != nil)"}
 				exp["Get"] = cross("return ", wrapAlts(k, B+"[$1]"), "")
 				exp["Set"] = cross(B+"[$1] = ", unwrapV(k, "$2", E), "")
@@ -802,19 +804,23 @@ func runViews(c *core.Ctx, g *model.GenPkg) {
 				mt := f.Var.Type().(*types.Map)
 				V := mt.Elem()
 				key := keyUnwrap(kk)
-				exp["Len"] = []string{"if (x.m == nil) {return 0}; return len(" + B + ")"}
+				exp["Len"] = []string{"if (x.m == nil) {return 0}; return len(" + B + ")", "if %v := x.m; (%v != nil) {return len(*%v)}; return 0", "%t1 := x.m; if (%t1 == nil) {return 0}; return len(*%t1)"}
 				exp["IsValid"] = []string{"return (x.m != nil)"}
 				for _, w := range wrapAlts(vk, "%v") {
-					exp["Range"] = append(exp["Range"], "if (x.m == nil) {return }; range %k, %v := "+B+" {if !$1(protoreflect.MapKey("+wrapV(kk, "%k")+"), "+w+") {break}}")
+					for _, leave := range []string{"break", "return "} {
+						exp["Range"] = append(exp["Range"], "if (x.m == nil) {return }; range %k, %v := "+B+" {if !$1(protoreflect.MapKey("+wrapV(kk, "%k")+"), "+w+") {"+leave+"}}")
+					}
 				}
 				exp["Has"] = []string{"if (x.m == nil) {return false}; %t1, %t2 := " + B + "[" + key + "]; return %t2"}
 				exp["Clear"] = []string{"if (x.m == nil) {return }; delete(" + B + ", " + key + ")"}
 				exp["Get"] = cross("if (x.m == nil) {return protoreflect.Value{}}; %t1, %t2 := "+B+"["+key+"]; if !%t2 {return protoreflect.Value{}}; return ", wrapAlts(vk, "%t1"), "")
+				exp["Get"] = append(exp["Get"], cross("if (x.m == nil) {return protoreflect.Value{}}; if %v, %ok := "+B+"["+key+"]; %ok {return ", wrapAlts(vk, "%v"), "}; return protoreflect.Value{}")...)
 				exp["Set"] = cross("if (!$1.IsValid() || !$2.IsValid()) {panic}; "+B+"["+key+"] = ", unwrapV(vk, "$2", V), "")
 				exp["Mutable"] = []string{"panic"}
 				if vk == protoreflect.MessageKind {
 					MT := tq(V.(*types.Pointer).Elem())
-					exp["Mutable"] = []string{"%t1, %t2 := " + B + "[" + key + "]; if %t2 {return protoreflect.ValueOfMessage(%t1.ProtoReflect())}; %t3 := new(" + MT + "); " + B + "[" + key + "] = %t3; return protoreflect.ValueOfMessage(%t3.ProtoReflect())"}
+					exp["Mutable"] = []string{"%t1, %t2 := " + B + "[" + key + "]; if %t2 {return protoreflect.ValueOfMessage(%t1.ProtoReflect())}; %t3 := new(" + MT + "); " + B + "[" + key + "] = %t3; return protoreflect.ValueOfMessage(%t3.ProtoReflect())",
+						"if %v, %ok := " + B + "[" + key + "]; %ok {return protoreflect.ValueOfMessage(%v.ProtoReflect())}; %t1 := new(" + MT + "); " + B + "[" + key + "] = %t1; return protoreflect.ValueOfMessage(%t1.ProtoReflect())"}
 				}
 				exp["NewValue"] = newValueForms(vk, V)
 			}
